@@ -90,6 +90,14 @@ def execute(prop, ops=None, seed=None, idx=None, tier="quick", cfg=None, enabled
         signal.signal(signal.SIGALRM, old)
     if sess is not None:
         res["violations"] = sess.violations + sess.other_alarms
+        kinds = set(k for k, _ in sess.interleave)
+        ana = kinds & {"solve", "rail_rep", "params", "limits", "phases", "tree", "save", "make_diag", "make_hdiag", "plot_interp", "batt_life"}
+        if len(ana) >= 4:
+            sess.nontrivial.add(("analysis-interleaving", digest(sess.interleave)))
+        n_ok = sum(1 for k, o in sess.interleave if o == "ok" and k in ("add_comp", "add_source", "change_comp", "del_comp", "set_sys_phases", "set_comp_phases"))
+        n_rej = sum(1 for k, o in sess.interleave if o == "rej")
+        if n_ok >= 5 and n_rej >= 3:
+            sess.nontrivial.add(("edit-history", digest([x for x in sess.interleave if x[0] in ("add_comp", "add_source", "change_comp", "del_comp", "set_sys_phases", "set_comp_phases")])))
         if getattr(w, "file_built", 0):
             sess.stats["file_built_components"] += w.file_built
         res["stats"] = dict(sess.stats)
